@@ -266,30 +266,56 @@ func layoutPart(c *vl.Ctx) (layoutStats, string) {
 
 // ---------------------------------------------------------------- (ii) behavioural
 
-func behaviouralTypes(quick bool) (plain, res []*ty, bound string) {
+// behaviouralTypes returns the types that get the fine-grained case set, those that get only
+// the lean set, and the result types.
+func behaviouralTypes(quick bool) (fine, lean, res []*ty, bound string) {
+	all6 := leavesOf("i8", "i16", "i32", "i64", "bool", "str")
+	sib := leavesOf("i8", "i64", "str")
 	if quick {
-		leaves := leavesOf("i8", "i16", "i32", "i64", "bool", "str")
-		d1 := depth1(leaves, 3)
-		d1n := depth1(leaves, 2)
-		sib := leavesOf("i8", "i64", "str")
+		// depth 1: structs of 1-2 fields over all six leaves, of 3 fields over {i8,i64,str} and
+		// over the permutations-with-repetition of {i16,i32,i64} (mixed widths), arrays and
+		// optionals over all six
+		d1 := structsOver(all6, 2)
+		d1 = append(d1, structsK(sib, 3)...)
+		d1 = append(d1, structsK(leavesOf("i16", "i32", "i64"), 3)...)
+		for _, l := range all6 {
+			d1 = append(d1, tArr(2, l), tArr(3, l))
+		}
+		for _, l := range all6 {
+			d1 = append(d1, tOpt(l))
+		}
+		d1n := depth1(sib, 2)
 		d2 := wrap(d1n, sib, 2)
-		plain = append(append(plain, d1...), d2...)
-		res = append(results(nil, leaves), results(d1n, sib)...)
-		bound = fmt.Sprintf("behavioural: leaves {i8,i16,i32,i64,bool,str}; depth1 complete=%d; depth2 = one composite child from depth1 with structs<=2 fields (%d), siblings {i8,i64,str}, structs<=2 fields: %d; results %d", len(d1), len(d1n), len(d2), len(res))
+		fine = depth1(leavesOf("i8", "i64"), 2)
+		lean = append(append(lean, d1...), d2...)
+		res = append(results(nil, all6), results(d1n, leavesOf("i8", "i64"))...)
+		bound = fmt.Sprintf("behavioural: depth1 = structs of 1-2 fields over {i8,i16,i32,i64,bool,str}, of 3 fields over {i8,i64,str} and over {i16,i32,i64}, [2]T/[3]T/T? over all six: %d types; depth2 = one composite child from the depth1 over {i8,i64,str} with structs<=2 fields (%d), siblings {i8,i64,str}, structs<=2 fields: %d types; fine-grained case set on the depth1 over {i8,i64} (%d types); results: leaf x leaf over six leaves, and one composite side from the %d children with the other side in {i8,i64}: %d", len(d1), len(d1n), len(d2), len(fine), len(d1n), len(res))
 		return
 	}
-	leaves := leavesOf("i8", "i16", "i32", "i64", "i128", "bool", "str")
-	d1 := depth1(leaves, 3)
-	d1n := depth1(leaves, 2)
-	d2 := wrap(d1, leaves, 2)
-	sib := leavesOf("i8", "i64", "str")
-	d2 = append(d2, oneCompositeK(d1n, sib, 3)...)
-	d2n := wrap(depth1(leavesOf("i8", "i64", "i128", "str"), 2), sib, 2)
-	d3 := wrap(d2n, sib, 2)
-	plain = append(append(append(plain, d1...), d2...), d3...)
-	res = append(results(nil, leaves), results(d1, leaves)...)
-	bound = fmt.Sprintf("behavioural: leaves {i8,i16,i32,i64,i128,bool,str}; depth1 complete=%d; depth2 = one composite child from depth1, structs<=2 fields, plus 3-field structs over the 2-field depth1 with siblings {i8,i64,str}: %d; depth3 over the sub-grammar leaves {i8,i64,i128,str}, structs<=2 fields, siblings {i8,i64,str}: %d; results %d", len(d1), len(d2), len(d3), len(res))
+	all7 := leavesOf("i8", "i16", "i32", "i64", "i128", "bool", "str")
+	d1 := depth1(all7, 3)
+	d1n := depth1(all6, 2)
+	d2 := wrap(d1n, sib, 2)
+	d2 = append(d2, oneCompositeK(depth1(sib, 2), sib, 3)...)
+	d2 = append(d2, wrap(depth1(leavesOf("i128"), 2), leavesOf("i8", "i128"), 2)...)
+	d3 := wrap(wrap(depth1(leavesOf("i8", "i64"), 2), leavesOf("i8", "i64"), 2), leavesOf("i8", "i64"), 2)
+	fine = depth1(sib, 2)
+	fine = append(fine, wrap(depth1(leavesOf("i8", "i64"), 2), leavesOf("i8", "i64"), 2)...)
+	lean = append(append(append(lean, d1...), d2...), d3...)
+	res = append(results(nil, all7), results(d1n, sib)...)
+	bound = fmt.Sprintf("behavioural: depth1 complete over {i8,i16,i32,i64,i128,bool,str}, structs 1-3 fields: %d; depth2 = one composite child from depth1 over six leaves with structs<=2 fields (%d), siblings {i8,i64,str}, structs<=2 fields, plus 3-field structs over the {i8,i64,str} children, plus the i128 family: %d; depth3 over leaves {i8,i64}, structs<=2 fields: %d; fine-grained case set on %d types; results %d", len(d1), len(d1n), len(d2), len(d3), len(fine), len(res))
 	return
+}
+
+// structsK returns the structs of exactly k fields over elems.
+func structsK(elems []*ty, k int) []*ty {
+	var out []*ty
+	for _, t := range structsOver(elems, k) {
+		if len(t.fs) == k {
+			out = append(out, t)
+		}
+	}
+	return out
 }
 
 // oneCompositeK returns only the structs of exactly k fields of oneComposite.
@@ -324,18 +350,34 @@ func Run(c *vl.Ctx) {
 	extra := map[string]any{}
 	bbound := "behavioural part skipped (VERIF_C18_LAYOUT_ONLY)"
 	if os.Getenv("VERIF_C18_LAYOUT_ONLY") == "" {
-		plain, res, bb := behaviouralTypes(quick)
+		fine, lean, res, bb := behaviouralTypes(quick)
 		bbound = bb
 		filter := os.Getenv("VERIF_FILTER")
 		var cases []*bcase
 		var ntypes int64
-		for _, t := range plain {
+		seen := map[string]bool{}
+		for _, t := range lean {
+			if seen[t.key()] {
+				continue
+			}
+			seen[t.key()] = true
 			if t.nLeaves() > maxLeaves {
 				c.Count("types_skipped_too_many_leaves", 1)
 				continue
 			}
 			ntypes++
-			cases = append(cases, casesFor(t, !quick)...)
+			cases = append(cases, leanCases(t)...)
+		}
+		seenF := map[string]bool{}
+		for _, t := range fine {
+			if seenF[t.key()] {
+				continue
+			}
+			seenF[t.key()] = true
+			if !seen[t.key()] {
+				ntypes++
+			}
+			cases = append(cases, fineCases(t)...)
 		}
 		for _, t := range res {
 			ntypes++
@@ -350,7 +392,26 @@ func Run(c *vl.Ctx) {
 			}
 			cases = f
 		}
-		dbg(fmt.Sprintf("%d cases generated", len(cases)))
+		var nst int64
+		for _, k := range cases {
+			nst += int64(k.size())
+		}
+		c.Count("behavioural_source_lines_per_target", nst)
+		if os.Getenv("VERIF_C18_DEBUG") != "" {
+			by := map[string]int{}
+			for _, k := range cases {
+				by[fmt.Sprintf("%s d%d %s", k.phase, k.t.depth(), k.t.rootName())] += k.size()
+			}
+			var ks []string
+			for k := range by {
+				ks = append(ks, k)
+			}
+			sort.Strings(ks)
+			for _, k := range ks {
+				fmt.Fprintf(os.Stderr, "c18:   lines %-40s %d\n", k, by[k])
+			}
+		}
+		dbg(fmt.Sprintf("%d types, %d cases, %d source lines generated", ntypes, len(cases), nst))
 		c.Count("behavioural_types", ntypes)
 		c.Count("behavioural_cases_per_target", int64(len(cases)))
 		for _, i := range []int{0, len(cases) / 5, len(cases) / 2, len(cases) - 1} {
@@ -358,6 +419,9 @@ func Run(c *vl.Ctx) {
 				c.Sample(map[string]any{"id": fmt.Sprintf(cases[i].id, "<target>"), "program": cases[i].source(), "expected": strings.Join(cases[i].want, "|")})
 			}
 		}
+		// the compiler's front end slows down sharply with GC threads competing on a loaded
+		// machine; its behaviour does not depend on the setting
+		os.Setenv("GOMAXPROCS", "1")
 		rn := run.New(c)
 		dbg("compiler and runtime built")
 		var judged, rejected, programs int64
@@ -366,7 +430,7 @@ func Run(c *vl.Ctx) {
 			if tg := os.Getenv("VERIF_C18_TARGET"); tg != "" && tg != target {
 				continue
 			}
-			j, r, p, fam := runTarget(c, rn, target, cases, 40, 6)
+			j, r, p, fam := runTarget(c, rn, target, cases, 130, 6)
 			atomic.AddInt64(&judged, j)
 			dbg(fmt.Sprintf("%s done: judged %d rejected %d programs %d", target, j, r, p))
 			rejected += r
